@@ -123,7 +123,7 @@ HARNESSES = [
          encodes=["tinylfu_cached::cache::cached::CacheD::{delete,get,get_ref,put_with_weight,total_weight_used}", "Store::{mark_deleted,delete}", "CommandExecutor::{send,spin (worker closure),delete}", "AdmissionPolicy::delete", "CacheWeight::delete", "TTLTicker::delete", "CommandAcknowledgementHandle::{done,poll}"]),
     dict(name="c04_delete_hides_then_releases_q3", tier="quick", group="c04_delete_hides_then_releases", file="cached.rs", props=["C04"], timeout=900,
          encodes=["tinylfu_cached::cache::cached::CacheD::{delete,get,get_ref,put_with_weight,total_weight_used}", "Store::{mark_deleted,delete}", "CommandExecutor::{send,spin (worker closure),delete}", "AdmissionPolicy::delete", "CacheWeight::delete", "TTLTicker::delete", "CommandAcknowledgementHandle::{done,poll}"]),
-    dict(name="c07_put_while_writer_holds_guard", tier="off", file="cached.rs", props=["C07", "C18"], timeout=900,
+    dict(name="c07_put_while_writer_holds_guard", file="cached.rs", props=["C07", "C18"], timeout=900,
          encodes=["tinylfu_cached::cache::cached::CacheD::{put_or_update,put_with_weight}", "Store::{update,is_present}"]),
     dict(name="c05_put_of_expired_unswept_key", file="cached.rs", props=["C05", "C07"], timeout=900,
          encodes=["tinylfu_cached::cache::cached::CacheD::{put_with_weight,put_with_weight_and_ttl}", "Store::is_present", "CommandExecutor::{send,spin (worker closure: Put, PutWithTTL arms)}", "AdmissionPolicy::maybe_add", "Store::{put,put_with_ttl}"]),
